@@ -34,7 +34,7 @@ type Case struct {
 
 func setup() {
 	c := ev.C()
-	c.Rule = "sequences of election announcements (and disconnects) by 1-4 negotiated SINGLE_PRIMARY sessions over in-process streams: exhaustive over the {0,1,2}x{0,1,2} id lattice (zero id included) x 3 sessions for length<=3 (quick) / <=4 (thorough), plus rapid sequences up to length 12 with each id half drawn from {0,1,2,2^32,2^63,2^64-2,2^64-1}. Plus in-flight schedules (the primary's request stopped inside an operation through the public post-change hook, 1-5 announcements by up to 3 other sessions meanwhile, each followed until answered or parked on a lock, then released): no election response below the id it answers or above the maximum announced, and at quiescence id == maximum, primary == most recent announcer of it (any announcer of it if announcements had to wait), confirmed by probe operations. Oracle: election model (cur = 128-bit max announced, primary = most recent announcer of an id >= all earlier ones): every election response carries exactly cur; zero id ends that RPC with INVALID_ARGUMENT and changes nothing; primary and cur compared through the election hook after every step, and behaviourally: after every announcement each announced session sends a correctly stamped idempotent DELETE, which must be acknowledged iff the session is the model's primary with id == cur. Non-trivial = the sequence contains two ids ordered differently by (high,low) than by the low word alone, or a tie, or a decrease; distinct by FNV-64 of the case JSON."
+	c.Rule = "sequences of election announcements (and disconnects) by 1-4 negotiated SINGLE_PRIMARY sessions over in-process streams: exhaustive over the {0,1,2}x{0,1,2} id lattice (zero id included) x 3 sessions for length<=3 (quick) / <=4 (thorough), plus rapid sequences up to length 12 with each id half drawn from {0,1,2,2^32,2^63,2^64-2,2^64-1}. Plus in-flight schedules (the primary's request stopped inside an operation through the public post-change hook, 1-5 announcements by up to 3 other sessions meanwhile, each followed until answered or parked on a lock, then released): no election response below the id it answers or above the maximum announced, and at quiescence id == maximum, primary == most recent announcer of it (any announcer of it if announcements had to wait), confirmed by probe operations. Oracle: election model (cur = 128-bit max announced, primary = most recent announcer of an id >= all earlier ones): every election response carries exactly cur; zero id ends that RPC with INVALID_ARGUMENT and changes nothing; primary and cur compared through the election hook after every step, and behaviourally: after every announcement each announced session sends a correctly stamped idempotent DELETE, which must be acknowledged iff the session is the model's primary with id == cur. Non-trivial = the sequence contains two ids ordered differently by (high,low) than by the low word alone, or a tie, or a decrease; distinct by FNV-64 of the case JSON. Later additions: announcements whose id message carries an unknown field; servers started with an injected election id; in-flight schedules in which clients of idle sessions go away."
 	c.Assumptions = []string{"sessions are driven sequentially at message granularity (concurrent announcements are C11's subject)"}
 }
 
